@@ -1,6 +1,6 @@
 """C10 - refactor_reference isolates the alias-dependent part without changing meaning."""
 from harness.common import Report, import_hpl, rng, tier
-from harness.rewrite_driver import Recorder, corrupt_first, family_texts, parse_inputs
+from harness.rewrite_driver import Recorder, corrupt_first, derived_pass, family_texts, parse_inputs
 
 FAMS = ['slots', 'alias', 'quants', 'bool1w']
 
@@ -21,13 +21,22 @@ def run(replay=None):
     rnd = rng('c10')
     rec = Recorder(rep, rnd, 64 if thorough else 32)
     texts = family_texts(list(FAMS + (['bool2'] if thorough else [])) + [('rand', 8000, 5) if thorough else ('rand', 1500, 4)], rep, rnd, cap=None if thorough else 3000)
+    used = []
     for fam, text, entry, obj in parse_inputs(texts, ('expression', 'condition'), boolean_only=True):
         if entry == 'condition' and rnd.random() > 0.25:
             continue
-        for alias in ('A', 'C', 'Z'):
-            if alias != 'A' and rnd.random() > 0.4:
+        for alias in ('A', 'C', 'Z', 'M', 'Zq'):    # M and Zq are the aliases that derived_after_use introduces
+            if alias in ('C', 'Z') and rnd.random() > 0.4:
+                continue
+            if alias in ('M', 'Zq') and rnd.random() > 0.3:
                 continue
             rec.refactor(text, obj, alias)
+        used.append((text, obj))
+
+    def again(text, obj):
+        for alias in ('A', 'M', 'Zq'):
+            rec.refactor(text, obj, alias)
+    rep.count('derived_after_use', derived_pass(used, again, rnd, 1200 if thorough else 300, prepare=again))
     for i, clause in rec.validate(canary):
         inf = rec.info[i]
         rep.violation('%s|%s' % (clause, inf['text']), 'refactor_reference(%r) -> (%s) violates %s' % (inf['text'], inf['result'] or inf['out'], clause), inf)
